@@ -176,6 +176,17 @@ var c06Families = []c06Family{
 		{query: `query($v:Int!){f(n:$v)}`, vars: c06V(nil, map[string]interface{}{"v": 1}, map[string]interface{}{"v": "bad"})},
 		{query: `query($v:Int){f(n:$v) g(p:1)}`, vars: c06V(nil, map[string]interface{}{"v": 1})},
 		{query: `query($__pcv0:Int){f(n:$__pcv0) g(p:1)}`, vars: c06V(nil, map[string]interface{}{"__pcv0": 4})}}},
+	// one response key selected three times on a level, the later occurrences behind variable-driven directives:
+	// a cached / prepared plan is reused under every assignment
+	{"dynmerge", []c06Q{
+		{query: `query($x:Boolean!,$y:Boolean!){sub{x(n:1)} sub @include(if:$x){p:x(n:2)} sub @include(if:$y){q:x(n:3)}}`, vars: c06BoolPairs()},
+		{query: `query($x:Boolean!,$y:Boolean!){sub{x(n:1)} sub @skip(if:$x){p:x(n:2)} sub @skip(if:$y){q:x(n:3)} a @include(if:$x)}`, vars: c06BoolPairs()},
+		{query: `query($x:Boolean!,$y:Boolean!){s:sub{x(n:1)} s:sub @include(if:$x){p:x(n:1)} s:sub @include(if:$y){q:x(n:1)}}`, vars: c06BoolPairs()}}},
+}
+
+func c06BoolPairs() []map[string]interface{} {
+	return c06V(map[string]interface{}{"x": true, "y": false}, map[string]interface{}{"x": false, "y": true},
+		map[string]interface{}{"x": true, "y": true}, map[string]interface{}{"x": false, "y": false})
 }
 
 // ---------------------------------------------------------------- one history
